@@ -18,15 +18,22 @@
     * `C19_miss_rewrites`  after any relevant change (or with no / a malformed cache) the run misses and
                            writes `make w_now`; `C19_force_refresh_rewrites` likewise for `-r`;
     * `C19_hit_complete`   nothing relevant changed ⇒ hit;
-    * `C19_no_crash_history` from an absent/malformed file no step of any history crashes.
-  Robustness (document layer, all JSON values):
+    * `C19_no_crash_history` no step of any history, from ANY cache file, ends in a traceback.
+  Robustness (document layer, all file contents) — since the upstream fix 16f7ad6 (`except Exception`):
+    * `C19_robust`         for every byte content (not UTF-8 / not JSON / any JSON value) and every world
+                           the gate answers `stale` or `fresh`, never a crash, when the regular files it
+                           hashes can be read; in general (`C19_robust_io`) the only exception left is the
+                           `OSError` of `hash_file_content` on an unreadable regular file, raised by the
+                           comparison conjunction outside the `try` (`C19_cex_unreadable_import`), and
+                           only for a document all of whose earlier conjuncts hold;
+    * `C19_stale_of_not_structured` whatever `read_text`/`deserialise` raises is answered `stale`
+                           (positive instances `C19_stale_null`, `_number`, `_not_utf8`, … replace the former
+                           crash counterexamples);
     * `C19_truncation`     no strict prefix of the (token-level) printed document is a JSON value;
-    * `C19_robust_partial` the gate never crashes on a missing file, on non-JSON content (which
-                           includes every truncation: `C19_truncation` + Tie B at every byte offset) or
-                           on a document of the declared shape; `fresh` is answered only for a value
-                           that structures into a document passing the conjunction.
-  The full statement `C19_full` is FALSE on the pinned code (`C19_full_false`): one counterexample
-  theorem per defect class (`C19_cex_*`), each replayed on the implementation by py/props/c19.py.
+    * `fresh` only for a value that structures into a document passing the conjunction
+      (`C19_fresh_sound`); NOT only for documents of the declared shape (`C19_cex_trusted_wrong_shape`).
+  The full statement `C19_full` is still FALSE (`C19_full_false`, from the wrongly trusted document;
+  `C19_cex_threshold` is the second class); each `C19_cex_*` is replayed on the implementation.
 -/
 import RattrModel.Cache
 import RattrModel.Generated.C19
@@ -68,9 +75,34 @@ theorem tieA_main_shape : Generated.C19.mainShape =
      "elif:target_cache_file_is_up_to_date", "return:EXIT_SUCCESS", "call:write_cache_file"] := by
   decide
 
+/-- With the generated `except` clause every exception of `read_text` / `deserialise` is caught.
+(Re-checked against the source on every run through `tieA_caught_exceptions`.) -/
+theorem caught_all (e : StructErr) : isCaught Generated.C19.gateCaughtExceptions e = true := by
+  cases e <;> decide
+
+theorem caught_all' (e : StructErr) : isCaught Cache.caughtExceptions e = true := by
+  rw [← tieA_caught_exceptions]; exact caught_all e
+
 section abstract
 variable {P H O X R : Type} [DecidableEq P] [DecidableEq H] [DecidableEq O]
 variable (D : Dir P H) (A : Analysis P H O X R) (L : Layout P)
+
+/-- The gate (all regular files readable) never raises. -/
+theorem gate_no_crash (w : World P H O X) (f : CacheFile P H O R) (e : StructErr) :
+    gate D w f ≠ .crash e := by
+  unfold gate
+  split
+  · cases f with
+    | absent => simp
+    | malformed => simp
+    | crashing e' => simp [caught_all']
+    | valid d => simp only; split <;> simp
+  · simp
+
+theorem gate_crashing (w : World P H O X) (e : StructErr) :
+    gate D w (.crashing e : CacheFile P H O R) = .stale := by
+  unfold gate
+  split <;> simp [caught_all']
 
 /-! ### The frame hypothesis (trusted base) -/
 
@@ -230,7 +262,7 @@ theorem hit_unchanged (b : Bool) (lw : Option (World P H O X)) (s : State P H O 
       rcases h with h | h | ⟨_, e, h⟩ | ⟨wk, hlw, h⟩
       · rw [h] at hg; simp at hg
       · rw [h] at hg; simp at hg
-      · rw [h] at hg; simp at hg
+      · rw [h] at hg; simp [caught_all'] at hg
       · rw [h] at hg
         simp only at hg
         by_cases hu : upToDate D s.world (make D A wk) = true
@@ -269,16 +301,17 @@ def Changed (wk w : World P H O X) : Prop := ¬ Unchanged D A wk w
 the present one in anything the gate compares, the run re-analyses and (unless the analysis ends
 in a fatal error) leaves `make w_now` on disk. -/
 theorem C19_miss_rewrites (s : State P H O X R) (wk : World P H O X)
-    (hd : s.disk = .absent ∨ s.disk = .malformed ∨
+    (hd : s.disk = .absent ∨ s.disk = .malformed ∨ (∃ e, s.disk = .crashing e) ∨
           (s.disk = .valid (make D A wk) ∧ Changed D A wk s.world))
     (hf : A.fails s.world = false) :
     step D A L s .runWithCache = ({ s with disk := .valid (make D A s.world) }, .missWritten) := by
   have hg : gate D s.world s.disk = .stale := by
     unfold gate
     split
-    · rcases hd with h | h | ⟨h, hc⟩
+    · rcases hd with h | h | ⟨e, h⟩ | ⟨h, hc⟩
       · rw [h]
       · rw [h]
+      · rw [h]; simp [caught_all']
       · rw [h]
         have : upToDate D s.world (make D A wk) = false := by
           cases hu : upToDate D s.world (make D A wk) with
@@ -292,22 +325,23 @@ theorem C19_miss_rewrites (s : State P H O X R) (wk : World P H O X)
 differs from the one of the last write (or nothing was ever written), the next run misses and writes
 the from-scratch document. -/
 theorem C19_miss_rewrites_history (s0 : State P H O X R) (ops : List (Op H O X))
-    (h0 : s0.disk = .absent ∨ s0.disk = .malformed)
+    (h0 : s0.disk = .absent ∨ s0.disk = .malformed ∨ ∃ e, s0.disk = .crashing e)
     (hc : ∀ wk, lastWritten D A L none s0 ops = some wk → Changed D A wk (exec D A L s0 ops).world)
     (hf : A.fails (exec D A L s0 ops).world = false) :
     step D A L (exec D A L s0 ops) .runWithCache =
       ({ exec D A L s0 ops with disk := .valid (make D A (exec D A L s0 ops).world) },
         .missWritten) := by
-  have hinv : DiskInv D A false none s0.disk := by
-    rcases h0 with h | h
+  have hinv : DiskInv D A true none s0.disk := by
+    rcases h0 with h | h | h
     · exact Or.inl h
     · exact Or.inr (Or.inl h)
-  have := C19_history D A L false ops none s0 hinv
-  rcases this with h | h | ⟨hb, _⟩ | ⟨wk, hlw, h⟩
+    · exact Or.inr (Or.inr (Or.inl ⟨rfl, h⟩))
+  have := C19_history D A L true ops none s0 hinv
+  rcases this with h | h | ⟨_, h⟩ | ⟨wk, hlw, h⟩
   · exact C19_miss_rewrites D A L _ (exec D A L s0 ops).world (Or.inl h) hf
   · exact C19_miss_rewrites D A L _ (exec D A L s0 ops).world (Or.inr (Or.inl h)) hf
-  · exact absurd hb (by decide)
-  · exact C19_miss_rewrites D A L _ wk (Or.inr (Or.inr ⟨h, hc wk hlw⟩)) hf
+  · exact C19_miss_rewrites D A L _ (exec D A L s0 ops).world (Or.inr (Or.inr (Or.inl h))) hf
+  · exact C19_miss_rewrites D A L _ wk (Or.inr (Or.inr (Or.inr ⟨h, hc wk hlw⟩))) hf
 
 /-- `-r` never consults the old file: whatever is on disk, the from-scratch document replaces it. -/
 theorem C19_force_refresh_rewrites (s : State P H O X R) (hf : A.fails s.world = false) :
@@ -341,37 +375,26 @@ theorem step_target (s : State P H O X R) (o : Op H O X) :
   | forceRefresh => simp only [step, analyse]; split <;> rfl
   | _ => simp [step, World.setContent]
 
-/-- From an absent or malformed file, no step of any history ends in a traceback. -/
+/-- No step of any history, from any state (whatever is in place of the cache file), ends in a
+traceback out of the gate. -/
 theorem C19_no_crash_history (ops : List (Op H O X)) :
-    ∀ (lw : Option (World P H O X)) (s : State P H O X R), DiskInv D A false lw s.disk →
-      ∀ o ∈ outs D A L s ops, ∀ e, o ≠ .crash e := by
+    ∀ (s : State P H O X R), ∀ o ∈ outs D A L s ops, ∀ e, o ≠ .crash e := by
   induction ops with
-  | nil => intro lw s _ o ho; simp [outs] at ho
+  | nil => intro s o ho; simp [outs] at ho
   | cons op os ih =>
-    intro lw s h o ho e
+    intro s o ho e
     simp only [outs, List.mem_cons] at ho
     rcases ho with rfl | ho
     · cases op with
       | runWithCache =>
-        simp only [step]
-        cases hg : gate D s.world s.disk with
-        | fresh => simp
-        | stale => simp only [analyse]; split <;> simp
-        | crash e' =>
-          exfalso
-          unfold gate at hg
-          split at hg
-          · rcases h with h | h | ⟨hb, _⟩ | ⟨wk, _, h⟩
-            · rw [h] at hg; simp at hg
-            · rw [h] at hg; simp at hg
-            · exact absurd hb (by decide)
-            · rw [h] at hg
-              simp only at hg
-              split at hg <;> simp at hg
-          · simp at hg
+        rcases step_run_cases D A L s with ⟨_, hs⟩ | ⟨e', hg, _⟩ | ⟨_, _, hs⟩ | ⟨_, _, hs⟩
+        · rw [hs]; simp
+        · exact absurd hg (gate_no_crash D _ _ e')
+        · rw [hs]; simp
+        · rw [hs]; simp
       | forceRefresh => simp only [step, analyse]; split <;> simp
       | _ => simp [step]
-    · exact ih _ _ (step_inv D A L false lw s op h) o ho e
+    · exact ih _ o ho e
 
 end abstract
 
@@ -542,59 +565,176 @@ theorem structure_of_wellShaped (render : JVal → Str) (v : JVal) (h : wellShap
     exact ⟨_, rfl⟩
   | _ => simp [wellShaped] at h
 
-/-- **Robustness, the part that holds.** For every file content and every world:
-(1) a missing file and content that is not JSON (every truncation of a written cache is such, Tie B)
-    are stale — never a crash;
-(2) a JSON document of the declared shape is answered `stale` or `fresh` — never a crash;
-(3) `fresh` is answered only for a JSON value that structures into a document which passes the
-    whole conjunction against the present world. -/
-theorem C19_robust_partial (render : JVal → Str) (D : Dir Str Str) (w : World Str Str Str X)
+/-- `fresh` is answered only for a JSON value that structures into a document which passes the
+whole conjunction against the present world. -/
+theorem C19_fresh_sound (render : JVal → Str) (D : Dir Str Str) (w : World Str Str Str X)
+    (f : Option FileContent) (hfresh : gateJ render D w f = .fresh) :
+    ∃ v d, f = some (.json v) ∧ structureDoc render v = .ok d ∧ upToDate D w d = true ∧
+      D.isFile w.target = true := by
+  unfold gateJ gate at hfresh
+  split at hfresh
+  · rename_i hT
+    cases f with
+    | none => simp [classify] at hfresh
+    | some fc =>
+      cases fc with
+      | notUtf8 => simp [classify, caught_all'] at hfresh
+      | notJson => simp [classify] at hfresh
+      | json v =>
+        simp only [classify] at hfresh
+        cases hs : structureDoc render v with
+        | error e => rw [hs] at hfresh; simp [caught_all'] at hfresh
+        | ok d =>
+          rw [hs] at hfresh
+          simp only at hfresh
+          by_cases hu : upToDate D w d = true
+          · exact ⟨v, d, rfl, hs, hu, hT⟩
+          · simp [hu] at hfresh
+  · simp at hfresh
+
+/-- Whatever `Path(cache).read_text()` / `deserialise` raise — missing file, bytes that are not
+UTF-8, text that is not JSON (every truncation), a JSON value that does not structure — the gate
+answers `stale`. -/
+theorem C19_stale_of_not_structured (render : JVal → Str) (D : Dir Str Str)
+    (w : World Str Str Str X) (f : Option FileContent)
+    (h : ∀ d, classify render f ≠ .valid d) : gateJ render D w f = .stale := by
+  unfold gateJ
+  cases hc : classify render f with
+  | absent => unfold gate; split <;> rfl
+  | malformed => unfold gate; split <;> rfl
+  | crashing e => exact gate_crashing D w e
+  | valid d => exact absurd hc (h d)
+
+/-- **Robustness (crash part), full strength.** For EVERY file content — nothing, bytes that are
+not UTF-8, text that is not JSON, any JSON value whatsoever — and every world, the gate answers
+`stale` or `fresh`; no exception leaves it. (Directory structure in which every regular file the
+gate hashes can be read; `C19_robust_io` removes that restriction.) -/
+theorem C19_robust (render : JVal → Str) (D : Dir Str Str) (w : World Str Str Str X)
     (f : Option FileContent) :
-    ((f = none ∨ f = some .notJson) → gateJ render D w f = .stale) ∧
-    (∀ v, f = some (.json v) → wellShaped v = true →
-      gateJ render D w f = .stale ∨ gateJ render D w f = .fresh) ∧
-    (gateJ render D w f = .fresh →
-      ∃ v d, f = some (.json v) ∧ structureDoc render v = .ok d ∧ upToDate D w d = true ∧
-        D.isFile w.target = true) := by
-  refine ⟨?_, ?_, ?_⟩
-  · rintro (rfl | rfl) <;> simp [gateJ, classify, gate]
-  · intro v hf hw
-    subst hf
-    obtain ⟨d, hd⟩ := structure_of_wellShaped render v hw
-    simp only [gateJ, classify, hd, gate]
-    split
-    · split
-      · right; rfl
-      · left; rfl
-    · left; rfl
-  · intro hfresh
-    unfold gateJ gate at hfresh
-    split at hfresh
-    · rename_i hT
+    gateJ render D w f = .stale ∨ gateJ render D w f = .fresh := by
+  cases hg : gateJ render D w f with
+  | stale => left; rfl
+  | fresh => right; rfl
+  | crash e => exact absurd hg (gate_no_crash D w _ e)
+
+end robust
+
+section io
+variable {P H O X R : Type} [DecidableEq P] [DecidableEq H] [DecidableEq O]
+variable (D : Dir P H) (unr : P → Bool) (w : World P H O X)
+
+theorem importsRaise_readable (hr : ∀ p, unr p = false) (is : List (P × H)) :
+    importsRaise D unr w is = false := by
+  induction is with
+  | nil => rfl
+  | cons i r ih => simp [importsRaise, hr, ih]
+
+theorem importsRaise_where (is : List (P × H)) (h : importsRaise D unr w is = true) :
+    ∃ i ∈ is, D.isFile i.1 = true ∧ unr i.1 = true := by
+  induction is with
+  | nil => simp [importsRaise] at h
+  | cons i r ih =>
+    simp only [importsRaise] at h
+    split at h
+    · rename_i hc
+      simp only [Bool.and_eq_true] at hc
+      exact ⟨i, List.mem_cons_self, hc.1, hc.2⟩
+    · split at h
+      · obtain ⟨j, hj, hh⟩ := ih h
+        exact ⟨j, List.mem_cons_of_mem _ hj, hh⟩
+      · simp at h
+
+/-- If every regular file can be read the refined gate is the gate of the history theorems. -/
+theorem gateIO_eq_gate (hr : ∀ p, unr p = false) (f : CacheFile P H O R) :
+    gateIO D unr w f = gate D w f := by
+  cases f with
+  | valid d => simp [gateIO, readRaises, hr, importsRaise_readable D unr w hr]
+  | _ => rfl
+
+/-- **Exactly where the conjunction can still raise**: only on a document whose version, hashed
+options, plugins and target path all match, and then either the target itself or — the target's
+hash matching too — a listed import is a regular file that cannot be read. -/
+theorem readRaises_where (d : Doc P H O R) (h : readRaises D unr w d = true) :
+    d.version = w.version ∧ d.argumentsHash = w.opts ∧ d.pluginsHash = w.plugins ∧
+    d.filepath = w.target ∧
+    ((D.isFile w.target = true ∧ unr w.target = true) ∨
+     (d.filehash = hashFile D w w.target ∧
+      ∃ i ∈ d.imports, D.isFile i.1 = true ∧ unr i.1 = true)) := by
+  unfold readRaises at h
+  simp only [Bool.and_eq_true, Bool.or_eq_true, decide_eq_true_eq] at h
+  obtain ⟨⟨⟨⟨h1, h2⟩, h3⟩, h4⟩, h5⟩ := h
+  refine ⟨h1, h2, h3, h4, ?_⟩
+  rcases h5 with h5 | ⟨h5, h6⟩
+  · left; exact h5
+  · right; exact ⟨h5, importsRaise_where D unr w _ h6⟩
+
+end io
+
+section robustIO
+variable {X : Type}
+
+/-- **Robustness with unreadable files.** For every file content, every world and every set of
+unreadable regular files, the gate answers `stale` or `fresh`, or raises `OSError` — and the latter
+only on a JSON value that structures into a document for which `readRaises` holds
+(`readRaises_where` says what that means). Nothing else can leave the gate. -/
+theorem C19_robust_io (render : JVal → Str) (D : Dir Str Str) (unr : Str → Bool)
+    (w : World Str Str Str X) (f : Option FileContent) :
+    gateJIO render D unr w f = .stale ∨ gateJIO render D unr w f = .fresh ∨
+    (gateJIO render D unr w f = .crash .osError ∧
+      ∃ v d, f = some (.json v) ∧ structureDoc render v = .ok d ∧ readRaises D unr w d = true) := by
+  unfold gateJIO
+  cases hc : classify render f with
+  | valid d =>
+    have hv : ∃ v, f = some (.json v) ∧ structureDoc render v = .ok d := by
       cases f with
-      | none => simp [classify] at hfresh
+      | none => simp [classify] at hc
       | some fc =>
         cases fc with
-        | notUtf8 => simp [classify] at hfresh
-        | notJson => simp [classify] at hfresh
+        | notUtf8 => simp [classify] at hc
+        | notJson => simp [classify] at hc
         | json v =>
-          simp only [classify] at hfresh
+          simp only [classify] at hc
           cases hs : structureDoc render v with
-          | error e => rw [hs] at hfresh; simp at hfresh
-          | ok d =>
-            rw [hs] at hfresh
-            simp only at hfresh
-            by_cases hu : upToDate D w d = true
-            · exact ⟨v, d, rfl, hs, hu, hT⟩
-            · simp [hu] at hfresh
-    · simp at hfresh
+          | error e => rw [hs] at hc; simp at hc
+          | ok d' =>
+            rw [hs] at hc
+            simp only [CacheFile.valid.injEq] at hc
+            subst hc
+            exact ⟨v, rfl, hs⟩
+    obtain ⟨v, hf, hs⟩ := hv
+    simp only [gateIO]
+    split
+    · rename_i hcond
+      simp only [Bool.and_eq_true] at hcond
+      right; right
+      exact ⟨rfl, v, d, hf, hs, hcond.2⟩
+    · cases hg : gate D w (.valid d : CacheFile Str Str Str ResultsJ) with
+      | stale => left; rfl
+      | fresh => right; left; rfl
+      | crash e => exact absurd hg (gate_no_crash D w _ e)
+  | absent => left; simp [gateIO, gate]
+  | malformed => left; simp [gateIO, gate]
+  | crashing e => left; simp only [gateIO]; exact gate_crashing D w e
+
+/-- If the regular files the gate may hash can all be read, it never raises. -/
+theorem C19_robust_readable (render : JVal → Str) (D : Dir Str Str) (unr : Str → Bool)
+    (w : World Str Str Str X) (f : Option FileContent) (hr : ∀ p, unr p = false) :
+    gateJIO render D unr w f = .stale ∨ gateJIO render D unr w f = .fresh := by
+  unfold gateJIO
+  rw [gateIO_eq_gate D unr w hr]
+  exact C19_robust render D w f
+
+end robustIO
+
+section robust2
+variable {X : Type}
 
 /-- A top-level string or list is never trusted (it structures, if at all, into the all-default
 document, whose version is the empty string). -/
 theorem C19_fresh_is_object (render : JVal → Str) (D : Dir Str Str) (w : World Str Str Str X)
     (v : JVal) (hv : w.version ≠ [])
     (hfresh : gateJ render D w (some (.json v)) = .fresh) : ∃ kvs, v = .obj kvs := by
-  obtain ⟨v', d, hf, hs, hu, _⟩ := (C19_robust_partial render D w _).2.2 hfresh
+  obtain ⟨v', d, hf, hs, hu, _⟩ := C19_fresh_sound render D w _ hfresh
   simp only [Option.some.injEq, FileContent.json.injEq] at hf
   subst hf
   have hver : d.version = w.version := by
@@ -621,40 +761,38 @@ theorem C19_fresh_is_object (render : JVal → Str) (D : Dir Str Str) (w : World
       subst hs
       exact absurd hver.symm hv
 
-/-! ### Counterexamples: what the pinned gate does on files that are not caches -/
+/-! ### Positive instances: files that are not caches are stale (former crash counterexamples,
+repaired upstream by 16f7ad6) -/
 
-section cex
+section instances
 variable (render : JVal → Str) (D : Dir Str Str) (w : World Str Str Str X)
-variable (hT : D.isFile w.target = true)
-include hT
 
-/-- cache file `null` → `TypeError: argument of type 'NoneType' is not iterable`. -/
-theorem C19_cex_null : gateJ render D w (some (.json .null)) = .crash .typeError := by
-  simp [gateJ, classify, structureDoc, gate, hT]
+/-- cache file `null`: `TypeError` inside `deserialise`, caught → stale. -/
+theorem C19_stale_null : gateJ render D w (some (.json .null)) = .stale :=
+  C19_stale_of_not_structured render D w _ (by simp [classify, structureDoc])
 
-/-- cache file `1` (any number, `true`, `NaN`) → `TypeError`. -/
-theorem C19_cex_number (r : Str) : gateJ render D w (some (.json (.num r))) = .crash .typeError := by
-  simp [gateJ, classify, structureDoc, gate, hT]
+/-- cache file `1` (any number, `NaN`). -/
+theorem C19_stale_number (r : Str) : gateJ render D w (some (.json (.num r))) = .stale :=
+  C19_stale_of_not_structured render D w _ (by simp [classify, structureDoc])
 
-theorem C19_cex_bool (b : Bool) : gateJ render D w (some (.json (.bool b))) = .crash .typeError := by
-  simp [gateJ, classify, structureDoc, gate, hT]
+theorem C19_stale_bool (b : Bool) : gateJ render D w (some (.json (.bool b))) = .stale :=
+  C19_stale_of_not_structured render D w _ (by simp [classify, structureDoc])
 
-/-- bytes that are not UTF-8 → `UnicodeDecodeError` out of `read_text`. -/
-theorem C19_cex_not_utf8 : gateJ render D w (some .notUtf8) = .crash .unicodeDecode := by
-  simp [gateJ, classify, gate, hT]
+/-- bytes that are not UTF-8 (`UnicodeDecodeError` out of `read_text`, inside the `try`). -/
+theorem C19_stale_not_utf8 : gateJ render D w (some .notUtf8) = .stale :=
+  C19_stale_of_not_structured render D w _ (by simp [classify])
 
-/-- `{"imports": 1}` (list field ← number) → cattrs `ClassValidationError`. -/
-theorem C19_cex_wrong_type :
-    gateJ render D w (some (.json (.obj [(str "imports", .num (str "1"))]))) =
-      .crash .classValidation := by
+/-- `{"imports": 1}` (list field ← number). -/
+theorem C19_stale_wrong_type :
+    gateJ render D w (some (.json (.obj [(str "imports", .num (str "1"))]))) = .stale := by
   have : fieldImports render [(str "imports", JVal.num (str "1"))] = none := rfl
-  simp [gateJ, classify, structureDoc, gate, hT, this]
+  exact C19_stale_of_not_structured render D w _ (by simp [classify, structureDoc, this])
 
-/-- `{"imports": [{"filepath": 1}]}` → `ClassValidationError`. -/
-theorem C19_cex_import_filepath :
+/-- `{"imports": [{"filepath": 1}]}`. -/
+theorem C19_stale_import_filepath :
     gateJ render D w
       (some (.json (.obj [(str "imports", .arr [.obj [(str "filepath", .num (str "1"))]])]))) =
-      .crash .classValidation := by
+      .stale := by
   have : fieldImports render
       [(str "imports", JVal.arr [.obj [(str "filepath", .num (str "1"))]])] = none := by
     have h1 : lookup (str "imports")
@@ -662,30 +800,31 @@ theorem C19_cex_import_filepath :
         some (JVal.arr [.obj [(str "filepath", .num (str "1"))]]) := rfl
     have h2 : fieldPath [(str "filepath", JVal.num (str "1"))] = none := by decide
     simp [fieldImports, h1, structImports, structImport, h2]
-  simp [gateJ, classify, structureDoc, gate, hT, this]
+  exact C19_stale_of_not_structured render D w _ (by simp [classify, structureDoc, this])
 
-/-- `{"filepath": null}` → `ClassValidationError` (`Path(None)`). -/
-theorem C19_cex_filepath :
-    gateJ render D w (some (.json (.obj [(str "filepath", .null)]))) = .crash .classValidation := by
+/-- `{"filepath": null}`. -/
+theorem C19_stale_filepath :
+    gateJ render D w (some (.json (.obj [(str "filepath", .null)]))) = .stale := by
   have : fieldPath [(str "filepath", JVal.null)] = none := by decide
-  simp [gateJ, classify, structureDoc, gate, hT, this]
+  exact C19_stale_of_not_structured render D w _ (by simp [classify, structureDoc, this])
 
-/-- `{"results": []}` → `ClassValidationError`. -/
-theorem C19_cex_results :
-    gateJ render D w (some (.json (.obj [(str "results", .arr [])]))) = .crash .classValidation := by
+/-- `{"results": []}`. -/
+theorem C19_stale_results :
+    gateJ render D w (some (.json (.obj [(str "results", .arr [])]))) = .stale := by
   have h1 : fieldPath [(str "results", JVal.arr [])] = some (str ".") := by decide
   have h2 : fieldImports render [(str "results", JVal.arr [])] = some [] := rfl
   have h3 : fieldResults render [(str "results", JVal.arr [])] = none := rfl
-  simp [gateJ, classify, structureDoc, gate, hT, h1, h2, h3]
+  exact C19_stale_of_not_structured render D w _ (by simp [classify, structureDoc, h1, h2, h3])
 
-/-- the JSON string `"version"` (any string containing a field name) → `ClassValidationError`
-(`'version' in o` is a substring test, then `o['version']` raises). -/
-theorem C19_cex_string_naming_field :
-    gateJ render D w (some (.json (.str (str "version")))) = .crash .classValidation := by
+/-- the JSON string `"version"`. -/
+theorem C19_stale_string_naming_field :
+    gateJ render D w (some (.json (.str (str "version")))) = .stale := by
   have : (docFieldNames.any fun n => pyContains n (JVal.str (str "version"))) = true := by decide
-  simp [gateJ, classify, structureDoc, gate, hT, this]
+  exact C19_stale_of_not_structured render D w _ (by simp [classify, structureDoc, this])
 
-end cex
+end instances
+
+end robust2
 
 /-! ### Concrete instances (tests by kernel evaluation; also the non-vacuity witnesses) -/
 
@@ -795,7 +934,7 @@ def goodDoc : JVal :=
         (str "results", .obj [(str "f", .obj [(str "gets", .arr [.str (str "a.x")]),
             (str "sets", .arr []), (str "dels", .arr []), (str "calls", .arr [])])])]
 
-/-- Non-vacuity of `C19_robust_partial` (2) and (3): a well-shaped document that is trusted. -/
+/-- Non-vacuity of `C19_fresh_sound` / `C19_robust`: a well-shaped document that is trusted. -/
 example : wellShaped goodDoc = true ∧
     gateJ (fun _ => []) D w (some (.json goodDoc)) = .fresh := by decide
 
@@ -820,6 +959,31 @@ accepted, and the gate answers "up-to-date". -/
 theorem C19_cex_trusted_wrong_shape :
     wellShaped ExJ.badDoc = false ∧
     gateJ (fun _ => []) ExJ.D ExJ.w (some (.json ExJ.badDoc)) = .fresh := by decide
+
+/-- A well-shaped, otherwise matching document one of whose imports names a regular file that
+cannot be read (`/proc/self/mem`, a file without read permission). -/
+def ExJ.ioDoc : JVal :=
+  .obj [(str "version", .str (str "v")), (str "arguments_hash", .str (str "a")),
+        (str "plugins_hash", .str (str "p")), (str "filepath", .str (str "t.py")),
+        (str "filehash", .str (str "h")),
+        (str "imports", .arr [.obj [(str "filepath", .str (str "/proc/self/mem")),
+                                    (str "filehash", .str (str "x"))]]),
+        (str "results", .obj [])]
+
+/-- **Counterexample (the one exception that can still leave the gate).** The comparison
+conjunction is outside the `try`: `hash_file_content` of a listed import that is a regular file but
+cannot be read raises `OSError` — on a cache document of the declared shape. With the same
+document and the file readable the answer is `stale` (hash mismatch). -/
+theorem C19_cex_unreadable_import :
+    wellShaped ExJ.ioDoc = true ∧
+    gateJIO (fun _ => [])
+      { isFile := fun p => decide (p = str "t.py") || decide (p = str "/proc/self/mem"),
+        emptyHash := str "e" }
+      (fun p => decide (p = str "/proc/self/mem")) ExJ.w (some (.json ExJ.ioDoc)) = .crash .osError ∧
+    gateJIO (fun _ => [])
+      { isFile := fun p => decide (p = str "t.py") || decide (p = str "/proc/self/mem"),
+        emptyHash := str "e" }
+      (fun _ => false) ExJ.w (some (.json ExJ.ioDoc)) = .stale := by decide
 
 /-! ### Truncation (token-level model printer) -/
 
@@ -916,7 +1080,7 @@ theorem strict_prefix_not_val {body p q : List Tok} (hb : IsSeq body)
 
 /-- **Truncation.** No strict prefix of the (token-level) printed cache document is a JSON value:
 a crash at any point between two atoms of the non-atomic `write_text` leaves a file that
-`json.loads` rejects, hence one the gate classifies as malformed (`C19_robust_partial` (1)).
+`json.loads` rejects, hence one the gate classifies as malformed (`C19_stale_of_not_structured`).
 Cuts inside an atom, and the byte-level fact as a whole, are enumerated exhaustively in Tie B
 (every byte offset of a real cache file on every run). -/
 theorem C19_truncation (d : DocJ) (p q : List Tok) (h : toksDoc d = p ++ q) (hq : q ≠ []) :
@@ -962,7 +1126,7 @@ end full
 /-- **C19, full strength**: whatever is in place of the cache file at the start (nothing, bytes that
 are not UTF-8 / not JSON, a JSON value of the wrong shape) and whatever sequence of edits, option
 changes, runs and forced refreshes follows, every run with the cache file satisfies `RunOK`.
-FALSE on the pinned tree: `C19_full_false`. -/
+STILL FALSE after the upstream fix 16f7ad6 (which repaired the crash classes): `C19_full_false`. -/
 def C19_full : Prop :=
   ∀ (render : JVal → Str) (D : Dir Str Str) (A : Analysis Str Str Str Nat ResultsJ)
     (L : Layout Str), Frame D A →
@@ -970,55 +1134,49 @@ def C19_full : Prop :=
     D.isFile w0.target = true → Corrupt f →
     RunOK true D A L (exec D A L { world := w0, disk := classify render f } ops)
 
+/-- Refuted by the wrongly trusted document: `ExJ.badDoc` is of the wrong shape, yet the first run
+answers "up-to-date" although a from-scratch run would write a different document. -/
 theorem C19_full_false : ¬ C19_full := by
   intro h
   have h1 := h (fun _ => []) ExJ.D ExJ.A { direct := [], transitive := [] } ExJ_frame ExJ.w
-    (some (.json .null)) [] (by decide) (by simp [Corrupt, wellShaped])
-  have hg : gate ExJ.D ExJ.w
-      (classify (fun _ => []) (some (.json .null)) : CacheFile Str Str Str ResultsJ) =
-      .crash .typeError := C19_cex_null (fun _ => []) ExJ.D ExJ.w (by decide)
-  simp only [RunOK, exec, step, hg] at h1
+    (some (.json ExJ.badDoc)) [] (by decide) C19_cex_trusted_wrong_shape.1
+  have hhit : (step ExJ.D ExJ.A { direct := [], transitive := [] }
+      { world := ExJ.w, disk := classify (fun _ => []) (some (.json ExJ.badDoc)) }
+      .runWithCache).2 = .hit := by decide
+  unfold RunOK at h1
+  simp only [exec] at h1
+  rw [hhit] at h1
+  exact absurd h1.1 (by decide)
 
 section partialFull
 variable {P H O X R : Type} [DecidableEq P] [DecidableEq H] [DecidableEq O]
 variable (D : Dir P H) (A : Analysis P H O X R) (L : Layout P)
 
-/-- **C19, the part that holds** (under the frame hypothesis): starting from no cache file or a
-file that is not JSON, after every history, a run with the cache file never crashes; a hit means
-that the file on disk is exactly what a from-scratch run would write now; a miss leaves exactly
-that on disk unless the analysis is fatal. (Not claimed: that a from-scratch run would not be
-fatal under the current strictness options — `C19_cex_threshold`.) -/
+/-- **C19, the part that holds** (under the frame hypothesis): starting from no cache file or from
+anything that does not read back as a cache document (not UTF-8, not JSON, a JSON value that does
+not structure), after every history, a run with the cache file never crashes; a hit means that the
+file on disk is exactly what a from-scratch run would write now; a miss leaves exactly that on disk
+unless the analysis is fatal. (Not claimed: that a from-scratch run would not be fatal under the
+current strictness options — `C19_cex_threshold`; nor anything for a wrong-shaped file that cattrs
+happens to accept — `C19_cex_trusted_wrong_shape`.) -/
 theorem C19_partial (F : Frame D A) (s0 : State P H O X R) (ops : List (Op H O X))
-    (h0 : s0.disk = .absent ∨ s0.disk = .malformed) :
+    (h0 : s0.disk = .absent ∨ s0.disk = .malformed ∨ ∃ e, s0.disk = .crashing e) :
     RunOK false D A L (exec D A L s0 ops) := by
-  have hinv : DiskInv D A false none s0.disk := by
-    rcases h0 with h | h
+  have hinv : DiskInv D A true none s0.disk := by
+    rcases h0 with h | h | h
     · exact Or.inl h
     · exact Or.inr (Or.inl h)
+    · exact Or.inr (Or.inr (Or.inl ⟨rfl, h⟩))
   unfold RunOK
   rcases step_run_cases D A L (exec D A L s0 ops) with ⟨_, hs⟩ | ⟨e, hg, hs⟩ | ⟨_, hf, hs⟩ | ⟨_, _, hs⟩
   · have hit : (step D A L (exec D A L s0 ops) .runWithCache).2 = .hit := by rw [hs]
-    obtain ⟨wk, _, _, _, hF⟩ := C19_hit_sound D A L false none s0 ops hinv hit
+    obtain ⟨wk, _, _, _, hF⟩ := C19_hit_sound D A L true none s0 ops hinv hit
     rw [hs]
     exact ⟨(hF F).1, by intro h; cases h⟩
-  · exfalso
-    have := C19_no_crash_history D A L (ops ++ [.runWithCache]) none s0 hinv (.crash e)
-    apply this _ e rfl
-    have houts : ∀ (s : State P H O X R) (os : List (Op H O X)),
-        outs D A L s (os ++ [.runWithCache]) =
-          outs D A L s os ++ [(step D A L (exec D A L s os) .runWithCache).2] := by
-      intro s os
-      induction os generalizing s with
-      | nil => simp [outs, exec]
-      | cons o os ih => simp [outs, exec, ih]
-    rw [houts, hs]
-    simp
+  · exact absurd hg (gate_no_crash D _ _ e)
   · rw [hs]; exact hf
   · rw [hs]
 
 end partialFull
-
-
-end robust
 
 end Rattr.C19
